@@ -1,33 +1,63 @@
 ------------------------------ MODULE DuelTrace ------------------------------
 (***************************************************************************)
 (* C09, third history shape: a duel.  The cache holds key k with value v0  *)
-(* (tag, size 1; limit 1 when the racer is an evicting Put, else ample).   *)
-(* One goroutine calls Get(k) while another calls ONE writer:              *)
-(*    remove: Remove(k)   put: Put(k, v1)   clear: Clear()                 *)
-(*    evict:  Put(k2, v2) with limit 1 (k is the LRU victim)               *)
+(* (tag; every entry has size 1; the limit is 1 when a call is an evicting *)
+(* Put, else ample).  Two goroutines make ONE call each, at the same time:  *)
+(*    get:    Get(k)          remove: Remove(k)      put: Put(k, v)        *)
+(*    clear:  Clear()         evict:  Put(k2, v) with limit 1              *)
 (* When both have returned, Get(k), Has(k), Len() and Size() are observed  *)
-(* in quiescence.  There are exactly two sequential orders; the record is  *)
-(* accepted iff one of them explains the concurrent Get and the quiescent  *)
-(* observations are those of the final state (the same in both orders).    *)
+(* in quiescence, and the eviction reports are collected.  There are       *)
+(* exactly two sequential orders; the record is accepted iff one of them   *)
+(* explains both results, the reports (as a bag) and the final state.      *)
 (* This is the linearizability condition of LinTrace specialised to two    *)
-(* calls, cheap enough to decide a hundred thousand duels per run: the     *)
-(* windows of some lock-free shortcuts are a few instructions wide.        *)
-(* A record: [racer, v0, v1, get, rres, get2, has2, len2, size2, evs]      *)
+(* calls on a one-entry cache, cheap enough to decide hundreds of          *)
+(* thousands of duels per run: the windows of some lock-free shortcuts and *)
+(* split critical sections are a few instructions wide.                    *)
+(* A call is [op, v]; a result is a triple (Get: <<tag, size, ok>>;        *)
+(* Remove/Put: <<r, 0, 0>>; Clear: <<0, 0, 0>>).                           *)
 (***************************************************************************)
-EXTENDS TraceBase
+EXTENDS TraceBase, FiniteSets
 
 Miss == <<0, 0, 0>>
 Hit(tag) == <<tag, 1, 1>>
 
-\* result of Get(k) when it comes first / second
-GetFirst(e) == Hit(e.v0)
-GetSecond(e) == IF e.racer = "put" THEN Hit(e.v1) ELSE Miss
-\* the final state, whatever the order
-FinalGet(e) == IF e.racer = "put" THEN Hit(e.v1) ELSE Miss
-FinalHas(e) == e.racer = "put"
-FinalLen(e) == IF e.racer \in {"put", "evict"} THEN 1 ELSE 0
-\* entries that left the cache, each reported exactly once: [key-tag]
-Reports(e) == <<e.v0>>          \* remove, clear, evict: the old entry; put: the replaced old entry
+\* the sequential cache, reduced to what a duel can reach:
+\*   [has: k present, val: its tag, oth: k2 present, ov: its tag]
+Start(v0) == [has |-> TRUE, val |-> v0, oth |-> FALSE, ov |-> 0]
+
+\* Apply(s, c) = [s |-> next state, res |-> result triple, rep |-> sequence of reported tags]
+Apply(s, c) ==
+  CASE c.op = "get"    -> [s |-> s, res |-> IF s.has THEN Hit(s.val) ELSE Miss, rep |-> <<>>]
+    [] c.op = "remove" -> [s |-> [s EXCEPT !.has = FALSE], res |-> <<IF s.has THEN 1 ELSE 0, 0, 0>>,
+                           rep |-> IF s.has THEN <<s.val>> ELSE <<>>]
+    [] c.op = "put"    -> \* ample limit: a replaced entry is reported
+                          [s |-> [s EXCEPT !.has = TRUE, !.val = c.v], res |-> <<1, 0, 0>>,
+                           rep |-> IF s.has THEN <<s.val>> ELSE <<>>]
+    [] c.op = "clear"  -> [s |-> [s EXCEPT !.has = FALSE, !.oth = FALSE], res |-> Miss,
+                           rep |-> (IF s.has THEN <<s.val>> ELSE <<>>) \o (IF s.oth THEN <<s.ov>> ELSE <<>>)]
+    [] c.op = "evict"  -> \* Put(k2, v) with limit 1: k2 replaced if present, else k evicted if present
+                          [s |-> [s EXCEPT !.has = FALSE, !.oth = TRUE, !.ov = c.v], res |-> <<1, 0, 0>>,
+                           rep |-> IF s.oth THEN <<s.ov>> ELSE IF s.has THEN <<s.val>> ELSE <<>>]
+
+\* with limit 1 a Put(k, v) after an evict must evict k2 in turn
+ApplyL1(s, c) ==
+  IF c.op = "put" /\ s.oth /\ ~s.has
+    THEN [s |-> [s EXCEPT !.has = TRUE, !.val = c.v, !.oth = FALSE], res |-> <<1, 0, 0>>, rep |-> <<s.ov>>]
+    ELSE Apply(s, c)
+
+Bag(q) == [x \in {q[i] : i \in DOMAIN q} |-> Cardinality({i \in DOMAIN q : q[i] = x})]
+
+Outcome(e, first, second, rf, rs) ==
+  LET tight == e.a.op = "evict" \/ e.b.op = "evict"
+      A1 == IF tight THEN ApplyL1(Start(e.v0), first) ELSE Apply(Start(e.v0), first)
+      A2 == IF tight THEN ApplyL1(A1.s, second) ELSE Apply(A1.s, second)
+      fin == A2.s
+  IN  /\ rf = A1.res /\ rs = A2.res
+      /\ Bag(e.evs) = Bag(A1.rep \o A2.rep)
+      /\ e.get2 = (IF fin.has THEN Hit(fin.val) ELSE Miss)
+      /\ e.has2 = fin.has
+      /\ e.len2 = (IF fin.has THEN 1 ELSE 0) + (IF fin.oth THEN 1 ELSE 0)
+      /\ e.size2 = e.len2
 
 TInit == TLCSet(1, 0) /\ l = 1
 
@@ -36,12 +66,8 @@ TStep ==
   /\ l' = l + 1
   /\ LET e == Trace[l]
      IN  /\ e.panic = ""
-         /\ e.racer \in {"remove", "put", "clear", "evict"}
-         /\ e.get \in {GetFirst(e), GetSecond(e)}
-         /\ (e.racer \in {"remove", "put", "evict"} => e.rres = 1)
-         /\ e.get2 = FinalGet(e) /\ e.has2 = FinalHas(e)
-         /\ e.len2 = FinalLen(e) /\ e.size2 = FinalLen(e)
-         /\ e.evs = Reports(e)
+         /\ \/ Outcome(e, e.a, e.b, e.ra, e.rb)       \* a before b
+            \/ Outcome(e, e.b, e.a, e.rb, e.ra)       \* b before a
 
 TSkip == l <= N /\ ~ENABLED TStep /\ Reject(l) /\ l' = l + 1
 TNext == TStep \/ TSkip
